@@ -192,6 +192,18 @@ def main():
     # rep: dict(evaluations, distinct_nontrivial, rule, samples, traces, semantic=[…], structural=[…], extra={…})
     known = load_known()
     semantic = rep.get("semantic", [])
+    # a worker that was killed by the watchdog even when re-run alone with five times the budget is an INFRASTRUCTURE problem
+    # (exit 2) unless termination is what the property states (C14: "minimisation terminates on every input")
+    def _is_timeout(v):
+        return any(isinstance(x, dict) and x.get("exc") == "Timeout" for k, x in v.items() if k != "case")
+    timeouts = [v for v in semantic if _is_timeout(v)]
+    if timeouts and prop != "C14":
+        semantic = [v for v in semantic if not _is_timeout(v)]
+        rep["semantic"] = semantic
+        if not semantic and not rep.get("structural") and not proof_problems:
+            print(f"ERROR property={prop} {len(timeouts)} case(s) timed out in the worker (machine overloaded?); no verdict")
+            return 2
+        rep.setdefault("extra", {})["worker_timeouts_ignored"] = len(timeouts)
     structural = rep.get("structural", [])
     known_hits, new_sem = [], []
     for v in semantic:
